@@ -151,6 +151,15 @@ int ad_ctrl_lastnull(void *ses, int *val, int sid)
     return st;
 }
 
+int ad_set_field_size(void *ses, uint32_t m, int sid)
+{
+    UINT16 v = (UINT16)m;
+    ENTER(sid);
+    int st = (int)of_set_control_parameter((of_session_t *)ses, OF_RS_CTRL_SET_FIELD_SIZE, &v, sizeof v);
+    LEAVE();
+    return st;
+}
+
 /* ---- libc rand() seam (E6). Linked with -Wl,--wrap=rand. ------------------------------------ */
 static uint64_t g_rand_state = 0x9E3779B97F4A7C15ULL;
 static uint64_t g_rand_calls = 0;
